@@ -55,14 +55,43 @@ func (c10) Orchestrate(p *fw.Parent) error {
 	timedOut := false
 	select {
 	case <-done:
-	case <-time.After(40 * time.Second):
+	case <-time.After(120 * time.Second):
 		cmd.Process.Kill()
 		<-done
 		timedOut = true
 	}
 	p.Count("selector_growth_probe_runs", 1)
+	// the growth family: allocation for twice the depth may grow at most 12-fold
+	lastStarted := ""
+	for _, line := range strings.Split(string(out), "\n") {
+		var r struct {
+			Selector, Phase string
+			A8, A16         uint64
+		}
+		if stdjson.Unmarshal([]byte(line), &r) != nil || r.Selector == "" {
+			continue
+		}
+		if r.Phase == "start" {
+			lastStarted = r.Selector
+			continue
+		}
+		lastStarted = ""
+		p.Count("selector_growth_family_walks", 2)
+		if r.A8 > 0 {
+			p.Max("max_alloc_growth_x10_for_twice_the_depth", int64(r.A16*10/(r.A8+1)))
+		}
+		if r.A16 > 12*r.A8+(1<<20) {
+			p.AddDeviation(fw.Deviation{Sig: "C10:recursive-selector-cost-grows-exponentially-with-depth", Index: -1,
+				Detail: fmt.Sprintf("walking %s over a one-child list chain allocates %d bytes at depth 8 and %d bytes at depth 16 (%.0f-fold for twice the depth; linear is 2)", r.Selector, r.A8, r.A16, float64(r.A16)/float64(r.A8+1))})
+		}
+	}
+	if (timedOut || err != nil) && lastStarted != "" {
+		p.AddDeviation(fw.Deviation{Sig: "C10:recursive-selector-cost-grows-exponentially-with-depth", Index: -1,
+			Detail: "the growth probe died or was killed while walking " + lastStarted + " over a one-child list chain of depth 8/16 under a 1.5 GiB address-space limit"})
+		return nil
+	}
 	if timedOut || err != nil {
-		why := "killed by the 40 s watchdog"
+		why := "killed by the 120 s watchdog"
 		if !timedOut {
 			why = "died: " + fatalFirst(string(out))
 		}
